@@ -88,6 +88,9 @@ type Conn struct {
 	// Chunker returns candidate read lengths (first = default).  avail is
 	// the number of buffered bytes, want the caller's buffer size.
 	Chunker func(c *Conn, avail, want int) []int
+	// Window > 0 bounds the bytes that may sit unread in the outgoing
+	// direction: a Write blocks while that many are queued (0 = unbounded).
+	Window int
 	// WriteFault, when set, is asked before the n-th (0-based) Write.
 	WriteFault func(n int, p []byte) error
 	// WriteFaultAfter, when set, is asked after the n-th (0-based) Write was
@@ -255,7 +258,16 @@ func (c *Conn) Write(p []byte) (int, error) {
 		}
 		return c.writeFree(p)
 	}
-	s.Point("write "+c.Name, nil)
+	if c.Window > 0 {
+		// bounded send window: the write waits until the peer has drained
+		// below the window (or the connection ends / the deadline passes);
+		// a local Close by another thread unblocks it, as with a real socket
+		s.Point("write "+c.Name, func() bool {
+			return len(c.Out.Buf) < c.Window || c.Closed || c.Out.RClosed || c.Out.cut || (!c.WDL.IsZero() && !s.Now().Before(c.WDL))
+		})
+	} else {
+		s.Point("write "+c.Name, nil)
+	}
 	k := c.NWrites
 	c.NWrites++
 	if c.Closed {
